@@ -120,7 +120,7 @@ def write_v2(fn, T=10, F=8, ants=('ant1', 'ant2'), t0=1300000000.0, dt=2.0, acts
     K = C.create_group('Correlator')
     K.attrs['int_time'] = dt
     K.attrs['n_chans'] = F
-    K.attrs['bandwidth'] = 400e6
+    K.attrs['bandwidth'] = 390625.0 * F
     K.attrs['bls_ordering'] = np.array(cps, dtype='S')
     A = C.create_group('Antennas')
     SA = S.create_group('Antennas')
